@@ -254,8 +254,8 @@ func runC02(r *core.Run) {
 		var k int
 		fmt.Sscanf(r.Variant[len("firstpoint:"):], "%d", &k)
 		xs := c02FirstPoints()
-		for i := range encs {
-			e := &encs[i]
+		for i0 := range encs {
+			e := &encs[(i0+k)%len(encs)] // a different encoder is the process's first in each child
 			for j := 0; j < len(xs); j++ {
 				x := xs[(k+j)%len(xs)]
 				if bad, kind, msg, _ := c02CheckPoint(e, x); bad {
